@@ -10,33 +10,27 @@ C04 — emitted bag-of-cells bytes conform to the TON BoC wire format.
   semantic layer `evalRecs`/`noDup` (level bits of d1 = computed level mask, no duplicate cell, rebuilt trees).
 
 What is proved here, for ALL inputs:
-  `c04_conforms_flat` — for EVERY list of well-formed cell records whose references point strictly forward (that is:
-  any DAG in any valid order), every valid option set (all 6), every count < 2^32 and payload < 2^63 bytes, `emit`
-  succeeds and the byte-level strict reader accepts the bytes and recovers exactly the records (d1, data bits,
-  reference indices) and the single root 0; plus the five clause lemmas named in the property.
-  `order_valid` (Proofs/BocOrder.lean, re-exported below when available) — the model of `Cell.order` yields a valid
-  order under a local no-collision hypothesis.
-
-FULL STATEMENT (goal; the part not yet proved is the semantic layer on trees):
-
-  theorem c04_conforms (H) (t : Cell) (wf : TreeWF H t) (tagged : every exotic cell's data starts with its type byte)
-      (p : PCell) (hp : Cell.build H t = some p) (nc : NoCollision p) (ord : List PCell) (vo : ValidOrder p ord)
-      (o : Opts) (hv : o.valid) :
-      ∃ recs bs, flattenCells (indexMap ord) ord = some recs ∧ emit recs o = some bs ∧
-        strictParse H bs = some [toSCell t]
-
-  Missing for it (see design/C04.md): (1) `cell_arec`: a built cell's descriptor/data bytes form an `ARec.OK` record and
-  `decodeBits d2 (dataBytes bits) = bits` (completion-tag round trip); (2) `evalRecs_flatten`: the level masks / hashes the
-  spec computes over the flat records equal those of the tree (via Proofs/CellSpec `tree_agrees`) so that the level-bit
-  and duplicate checks pass and the rebuilt tree is `toSCell t`.  Both are exercised on every run by the oracle
-  (the Lean strict reader incl. its semantic layer runs on the library's real output).
+  `c04_conforms` — THE PROPERTY: for every spec-valid tree of cells `t` (any kinds incl. pruned/library/Merkle cells, any
+  sharing; `TreeWF` of C02) whose exotic cells carry their type byte (`Typed`), under the local no-collision hypothesis on
+  the hashes of its sub-cells, for each of the 6 valid option sets: the model of `Cell.order` yields a `ValidOrder`, the model
+  of `Cell.to_boc` succeeds, and the independent strict reader ACCEPTS the bytes and denotes exactly `[t]`
+  (`strictParse H bs = some [toSCell t]`: same exotic flags, data bits and references, recursively) — all checks of the
+  reader passed: widths, flags, counts, index, CRC, record framing, completion tags, references strictly forward, level
+  bits of d1 = computed level mask, no duplicate cell, no trailing bytes.  `c04_conforms_total` adds termination of
+  `Cell.order` with the fuel the driver uses.
+  `c04_conforms_flat` — the byte-level half for EVERY list of well-formed records with forward references (any DAG in ANY
+  valid order, not only the library's), and the five clause lemmas named in the property.
+  `order_valid` — the model of `Cell.order` yields a valid order under the no-collision hypothesis.
+The bounds `ord.length < 2^32` and `payload·2 < 2^64` are the format's own limits (size ≤ 4, off_bytes ≤ 8 bytes).
 -/
 import TonVerif.Proofs.BocEmit
 import TonVerif.Proofs.BocOrder
 import TonVerif.Proofs.BocConform
+import TonVerif.Proofs.BocSemFinal
 
 namespace TonVerif.Properties.C04
-open TonVerif TonVerif.Model TonVerif.Spec.Boc TonVerif.Proofs.BocEmit TonVerif.Proofs.BocOrder
+open TonVerif TonVerif.Model TonVerif.Spec.Boc TonVerif.Proofs.BocEmit TonVerif.Proofs.BocOrder TonVerif.Proofs.BocSem
+  TonVerif.Proofs.CellSpec
 
 /-- the six valid option sets are exactly the `Opts` with `valid` and `flags = 0` -/
 theorem valid_opts (o : Opts) : o.valid = true ↔
@@ -182,14 +176,66 @@ no-collision hypothesis on the hashes of its sub-cells; for each of the 6 valid 
 byte-level strict reader accepts the bytes and decodes one record per distinct cell of `ord` with that cell's d1
 (reference count, exotic flag, level mask), its exact data bits (completion tag removed) and, per reference, the position
 of the referenced cell, which is strictly greater than the cell's own; root list `[0]`.
-The bounds `hn`/`hP` are the format's own limits (size ≤ 4 bytes, off_bytes ≤ 8 bytes).
-MISSING for the full `c04_conforms`: `evalRecs H (ord.map (cellSRec ord))` succeeds with the spec masks equal to the level
-bits of d1, pairwise distinct representation hashes, and rebuilt trees equal to `t` (semantic layer; see the header). -/
+The bounds `hn`/`hP` are the format's own limits (size ≤ 4 bytes, off_bytes ≤ 8 bytes).  (Kept beside `c04_conforms`
+because it needs only `Shape`, not spec-validity of the cells: it also covers cells the spec would not accept.) -/
 theorem c04_conforms_partial (H : Bytes → Bytes) (t : Cell) (p : PCell) (sh : Shape t) (hb : Cell.build H t = some p)
     (nc : NoCollision p) (fuel : Nat) (ord : List PCell) (h : p.order fuel = some ord) (o : Opts) (hv : o.valid = true)
     (hn : ord.length < 2 ^ 32) (hP : (payloadOf (sizeW (orderRecs ord)) (orderRecs ord)).length * 2 < 2 ^ 64) :
     ValidOrder p ord ∧ ∃ bs, p.toBoc fuel o = some bs ∧ strictFlat bs = some ⟨ord.map (cellSRec ord), [0]⟩ :=
   toBoc_conforms_tree H t p sh hb nc fuel ord h o hv hn hP
+
+/-- **C04, THE PROPERTY** — every serialisation `to_boc` emits is accepted by the independent strict reader and decodes
+there to the same DAG.  `t` ranges over all spec-valid trees of cells (C02's `TreeWF`: ordinary, pruned, library, Merkle
+proof/update cells, any nesting and sharing) whose exotic cells carry their type byte; `p` is the object graph
+`Cell.__init__` builds; `NoCollision p` is the local hypothesis that among the sub-cells at hand equal hashes mean equal
+cells (cells are keyed by hash); `o` is any of the 6 valid option sets; `ord` is what `Cell.order` returns. -/
+theorem c04_conforms (H : Bytes → Bytes) (t : Cell) (wf : TreeWF H t) (ty : Typed t) (p : PCell)
+    (hb : Cell.build H t = some p) (nc : NoCollision p) (fuel : Nat) (ord : List PCell) (h : p.order fuel = some ord)
+    (o : Opts) (hv : o.valid = true) (hn : ord.length < 2 ^ 32)
+    (hP : (payloadOf (sizeW (orderRecs ord)) (orderRecs ord)).length * 2 < 2 ^ 64) :
+    ValidOrder p ord ∧ ∃ bs, p.toBoc fuel o = some bs ∧ strictParse H bs = some [toSCell t] :=
+  strictParse_toBoc H t wf ty p hb nc fuel ord h o hv hn hP
+
+/-- the same with termination: the tree can be built, `Cell.order` returns with the driver's fuel, and (within the format's
+size limits) the emitted bytes are accepted and denote `[t]`. -/
+theorem c04_conforms_total (H : Bytes → Bytes) (t : Cell) (wf : TreeWF H t) (ty : Typed t) :
+    ∃ p, Cell.build H t = some p ∧ ∀ (_ : NoCollision p) (fuel : Nat)
+      (_ : 6 * ((subcells p).map PCell.key).eraseDups.length + 2 ≤ fuel),
+      ∃ ord, p.order fuel = some ord ∧ ValidOrder p ord ∧
+        ∀ (o : Opts), o.valid = true → ord.length < 2 ^ 32 →
+          (payloadOf (sizeW (orderRecs ord)) (orderRecs ord)).length * 2 < 2 ^ 64 →
+          ∃ bs, p.toBoc fuel o = some bs ∧ strictParse H bs = some [toSCell t] := by
+  obtain ⟨p, hb⟩ := tree_builds H t wf
+  refine ⟨p, hb, ?_⟩
+  intro nc fuel hf
+  have okp := build_ok H t p (shape_of H t wf ty) hb
+  obtain ⟨ord, ho, vo⟩ := order_fuel_valid p fuel (fun c hc => (okp c hc).refs_le) nc hf
+  refine ⟨ord, ho, vo, ?_⟩
+  intro o hv hn hP
+  exact (c04_conforms H t wf ty p hb nc fuel ord ho o hv hn hP).2
+
+theorem inj_of_nodup_map {α : Type} (f : α → Nat) : ∀ (l : List α), (l.map f).Nodup → ∀ a ∈ l, ∀ b ∈ l, f a = f b → a = b
+  | [], _, a, ha, _, _, _ => by simp at ha
+  | x :: xs, h, a, ha, b, hb, hk => by
+    simp only [List.map_cons, List.nodup_cons, List.mem_map, not_exists, not_and] at h
+    rcases List.mem_cons.1 ha with rfl | ha' <;> rcases List.mem_cons.1 hb with rfl | hb'
+    · rfl
+    · exact absurd hk.symm (h.1 b hb')
+    · exact absurd hk (h.1 a ha')
+    · exact inj_of_nodup_map f xs h.2 a ha' b hb' hk
+
+/-- Non-vacuity of ALL hypotheses of `c04_conforms` together: with the injective toy hash `H = id` the 5-bit cell over two
+leaves is spec-valid, typed, buildable, and collision-free. -/
+example : TreeWF id sampleTree ∧ Typed sampleTree ∧ ∃ p, Cell.build id sampleTree = some p ∧ NoCollision p := by
+  obtain ⟨wf, ty⟩ := sampleTree_ok id
+  obtain ⟨p, hp⟩ := tree_builds id sampleTree wf
+  refine ⟨wf, ty, p, hp, ?_⟩
+  have hk : (match Cell.build id sampleTree with
+      | some p => (subcells p).map PCell.key | none => []) = [621028971429221302762734016, 0, 448] := by decide +kernel
+  rw [hp] at hk
+  simp only at hk
+  intro a ha b hb hab
+  exact inj_of_nodup_map PCell.key (subcells p) (by rw [hk]; decide) a ha b hb hab
 
 /-- completion tag: the data bytes `to_boc` writes for a cell have the length announced by d2, carry the completion tag
 in the last byte exactly when d2 is odd (and then `last & 0x7f ≠ 0`: present, not overlong), and decode back to the data bits. -/
